@@ -679,7 +679,7 @@ Proof.
   - unfold scratch, run in *. rewrite map_app, fold_left_app.
     destruct (run_adds e P init_st) as [s Hs]. rewrite Hs in *. cbn [snd] in IH.
     destruct (Rep_step e s P o IH Ha) as [s' [Hu Hr]].
-    cbn [map fold_left]. unfold step, step_gen. change (upd_gen 3 e s o) with (upd e s o).
+    cbn [map fold_left]. unfold step, step_gen. change (upd_gen 4 e s o) with (upd e s o).
     rewrite Hu. exact Hr.
 Qed.
 
